@@ -154,7 +154,14 @@ impl Session {
                 StepOut { outcome: Outcome::Ok(false), resp: None, req_payload: vec![], peek: None, text: "T".into() }
             }
             Op::Req(ep, spec) => {
-                let built = guarded(|| CoapRequest::from_packet(spec.build(), *ep));
+                // endpoint 255 stands for a request object without a source (`source: None`)
+                let built = guarded(|| {
+                    let mut r = CoapRequest::from_packet(spec.build(), *ep);
+                    if *ep == 255 {
+                        r.source = None;
+                    }
+                    r
+                });
                 match built {
                     None => {
                         self.last = None;
@@ -213,7 +220,13 @@ impl Session {
                 StepOut { outcome: Outcome::Ok(false), resp: None, req_payload: vec![], peek: None, text: "C".into() }
             }
             Op::Peek(ep, spec) => {
-                let built = guarded(|| CoapRequest::from_packet(spec.build(), *ep));
+                let built = guarded(|| {
+                    let mut r = CoapRequest::from_packet(spec.build(), *ep);
+                    if *ep == 255 {
+                        r.source = None;
+                    }
+                    r
+                });
                 let peek = built.and_then(|req| guarded(|| self.peek_of(&req)).unwrap_or(None));
                 StepOut { outcome: Outcome::Ok(false), resp: None, req_payload: vec![], peek: peek.clone(), text: peek_token(&peek) }
             }
@@ -1625,6 +1638,43 @@ pub fn run(cx: &mut Ctx) {
         }
     }
 
+    // … whatever the request code is (all seven methods, unnamed request codes, even codes of other classes)
+    for code in [1u8, 2, 3, 4, 5, 6, 7, 8, 31, 0x45, 0xA0] {
+        let shape = ReqShape { code, ..shapes[0].clone() };
+        let m = 100usize;
+        let ov = overhead_of(&shape.spec(1, None, None, &[]).build());
+        for d in [-1i64, 0, 30] {
+            let pl = (m as i64 - ov as i64 - 12 + d).max(0) as usize;
+            let mut sess = Session::new(m, 60000);
+            let o = sess.step(Op::Req(1, shape.spec(7, None, None, &vec![3u8; pl])));
+            let line = sess.emit(cx);
+            let b1 = o.resp.as_ref().and_then(|r| first_opt(r, 27)).and_then(|b| parse_bv(&b));
+            if pl >= m - ov - 12 {
+                let ok = o.outcome == Outcome::Ok(true) && o.resp.as_ref().map(|r| u8::from(r.header.code)) == Some(0x8D) && b1.is_some();
+                if !ok && o.resp.is_some() {
+                    cx.oracle_fail("C09", &line, &format!("request (code byte {}) with {} payload bytes (budget {}, overhead {}) and no Block1 was not answered 4.13 with a Block1 hint: {}", code, pl, m, ov, o.outcome.token()));
+                }
+            } else if o.outcome != Outcome::Ok(false) {
+                cx.oracle_fail("C09", &line, &format!("request (code byte {}) that fits the budget was not passed on: {}", code, o.outcome.token()));
+            }
+        }
+    }
+    // requests without a source (`source: None`, e.g. built by hand): served like any other endpoint,
+    // under their own key
+    for (ep_a, ep_b) in [(255u8, 255u8), (255, 1), (1, 255)] {
+        let body = body_of(&mut rng, 100);
+        let shape = &shapes[0];
+        let mut sess = Session::new(64, 60000);
+        run_download(cx, &Download { shape, ep: ep_a, m: 64, body: body.clone(), resp_opts: vec![], first_szx: Some(0), reduce_at: None, followup_toks: vec![] }, &mut sess, true);
+        let mut sess = Session::new(1152, 60000);
+        run_upload(cx, &Upload { shape: &shapes[1], ep: ep_a, m: 1152, body: body.clone(), szx: 0, dups: vec![1], abandoned: None, dup_final: 0, fresh_tokens: false }, &mut sess);
+        if ep_a != ep_b {
+            let s1 = download_script(shape, ep_a, &body[..70], 0, 10);
+            let s2 = download_script(shape, ep_b, &body[30..90], 0, 40);
+            run_interleavings(cx, &s1, &s2, 48);
+        }
+    }
+
     // ---- C. hostile traffic
     // directed: a rejected far-offset block in the middle of an upload must not disturb it
     // … also when block 0 announced a total size (Size1 / Size2 / both, as a minimal uint) that covers the
@@ -1730,6 +1780,11 @@ pub fn run(cx: &mut Ctx) {
         (ReqShape { path: vec![b"a,b".to_vec()], ..base.clone() }, 1, "comma inside a segment"),
         (ReqShape { path: vec![b"a".to_vec(), b"".to_vec(), b"b".to_vec()], ..base.clone() }, 1, "empty middle segment"),
         (ReqShape { path: vec![b"a b".to_vec()], ..base.clone() }, 1, "space inside a segment"),
+        (ReqShape { path: vec![b"a".to_vec(), b"b".to_vec(), b"".to_vec()], ..base.clone() }, 1, "trailing empty segment"),
+        (ReqShape { path: vec![b"".to_vec(), b"a".to_vec(), b"b".to_vec()], ..base.clone() }, 1, "leading empty segment"),
+        (ReqShape { path: vec![b"a".to_vec(), b"b".to_vec(), b"".to_vec(), b"".to_vec()], ..base.clone() }, 1, "two trailing empty segments"),
+        (ReqShape { path: vec![b"A".to_vec(), b"b".to_vec()], ..base.clone() }, 1, "letter case"),
+        (ReqShape { path: vec![b"a".to_vec(), b"b".to_vec()], extra: vec![(15, b"x=1".to_vec())], ..base.clone() }, 2, "endpoint (with a query)"),
     ];
     let body1 = body_of(&mut rng, 70);
     let body2 = body_of(&mut rng, 60);
@@ -1766,6 +1821,13 @@ pub fn run(cx: &mut Ctx) {
                 run_pipelined(cx, &download_script(&base, 1, &body1, 0, 10), &upload_script(&ReqShape { code: if v.code == 1 { 3 } else { v.code }, ..v.clone() }, *ep2, &body2, 0, midbase2), 48, second_first);
             }
         }
+    }
+    // request codes without a name (0.08 … 0.31), or of another class, are methods of their own too
+    for (ca, cb) in [(8u8, 9u8), (8, 31), (10, 1), (31, 7), (0x45, 0x44), (8, 0xA0)] {
+        let sa = ReqShape { code: ca, ..base.clone() };
+        let sb = ReqShape { code: cb, ..base.clone() };
+        run_interleavings(cx, &download_script(&sa, 1, &body1, 0, 10), &download_script(&sb, 1, &body2, 0, 40), 48);
+        run_interleavings(cx, &upload_script(&sa, 1, &body1, 0, 10), &upload_script(&sb, 1, &body2, 0, 40), 48);
     }
     // ---- D2. every registered option as an extra request option (typed values of several magnitudes)
     //          on a small upload and a small download: options the handler does not interpret must not
